@@ -12,6 +12,7 @@ import (
 	"sort"
 	"strconv"
 	"strings"
+	"time"
 )
 
 // ---------- inputs ----------
@@ -245,16 +246,18 @@ type Mismatch struct {
 }
 
 type Summary struct {
-	Component   string         `json:"component"`
-	Seed        int64          `json:"seed"`
-	Evaluations int            `json:"evaluations"`
-	Distinct    int            `json:"distinct"`
-	NonTrivial  int            `json:"distinct_nontrivial"`
-	Dist        map[string]int `json:"distribution"`
-	Samples     []any          `json:"samples"`
-	Mismatches  []Mismatch     `json:"mismatches"`
-	DriverUsed  bool           `json:"driver_used"`
-	Notes       []string       `json:"notes,omitempty"`
+	Component       string         `json:"component"`
+	Seed            int64          `json:"seed"`
+	Evaluations     int            `json:"evaluations"`
+	Distinct        int            `json:"distinct"`
+	NonTrivial      int            `json:"distinct_nontrivial"`
+	Dist            map[string]int `json:"distribution"`
+	Samples         []any          `json:"samples"`
+	Mismatches      []Mismatch     `json:"mismatches"`
+	DriverUsed      bool           `json:"driver_used"`
+	BudgetExhausted bool           `json:"budget_exhausted,omitempty"`
+	Skipped         int            `json:"skipped,omitempty"`
+	Notes           []string       `json:"notes,omitempty"`
 }
 
 func truncLines(l []string) []string {
@@ -296,6 +299,8 @@ type runner struct {
 	keyed         map[string]bool
 	unkeyed       int
 	unkeyedOracle int
+	started       time.Time
+	exhausted     bool
 }
 
 func (r *runner) modelOutLines(lines []string) []string {
@@ -354,8 +359,9 @@ func (r *runner) shrink(c Case, kind string) Case {
 	if size > 1<<20 { // every attempt re-runs the whole case: keep it short for MiB-sized cases
 		budget = 40
 	}
+	deadline := time.Now().Add(30 * time.Second) // slow cases (seconds each) must not turn one mismatch into minutes of shrinking
 	try := func(cand Case) bool {
-		if budget <= 0 {
+		if budget <= 0 || time.Now().After(deadline) {
 			return false
 		}
 		budget--
@@ -457,6 +463,13 @@ func (r *runner) flush(batch []Case) {
 	lines := make([][]string, len(batch))
 	for i, c := range batch {
 		lines[i], impls[i], bases[i] = expand(r.comp, c)
+		if budget > 0 && time.Since(r.started) > budget && i+1 < len(batch) {
+			// out of time inside a batch: evaluate what has been run, leave the rest
+			r.sum.Skipped += len(batch) - (i + 1)
+			batch, lines, impls, bases = batch[:i+1], lines[:i+1], impls[:i+1], bases[:i+1]
+			r.exhausted = true
+			break
+		}
 	}
 	var models [][]string
 	if r.drv != nil {
@@ -492,9 +505,15 @@ func (r *runner) flush(batch []Case) {
 	}
 }
 
+// budget: wall-clock limit for generating and evaluating cases (0 = none).  When it runs out the run stops after the batch in
+// progress and the summary says so: a check that could not finish must not look like one that found nothing.
+var budget time.Duration
+
 func runComponent(comp Component, driverPath string, seed int64, n int, replay *Case) *Summary {
 	sum := &Summary{Component: comp.Name(), Seed: seed, Dist: map[string]int{}}
-	r := &runner{comp: comp, sum: sum, seen: map[string]bool{}, maxMis: 5, keyed: map[string]bool{}}
+	started := time.Now()
+	exhausted := false
+	r := &runner{comp: comp, sum: sum, seen: map[string]bool{}, maxMis: 5, keyed: map[string]bool{}, started: started}
 	if driverPath != "" {
 		d, err := StartDriver(driverPath)
 		if err != nil {
@@ -513,19 +532,35 @@ func runComponent(comp Component, driverPath string, seed int64, n int, replay *
 	batch := make([]Case, 0, 512)
 	size := 0
 	comp.Generate(rng, n, func(c Case) {
+		if exhausted || r.exhausted {
+			exhausted = true
+			sum.Skipped++
+			return
+		}
 		batch = append(batch, c)
 		for _, o := range c.Ops {
 			for _, b := range o.Bytes {
 				size += len(b)
 			}
 		}
-		if len(batch) >= 512 || size > 4<<20 {
+		if len(batch) >= 512 || size > 4<<20 || (budget > 0 && len(batch) >= 16 && time.Since(started) > budget/2) {
 			r.flush(batch)
 			batch = batch[:0]
 			size = 0
+			if budget > 0 && time.Since(started) > budget {
+				exhausted = true
+			}
 		}
 	})
-	r.flush(batch)
+	if !exhausted {
+		r.flush(batch)
+	} else {
+		sum.Skipped += len(batch)
+	}
+	if exhausted || r.exhausted {
+		sum.BudgetExhausted = true
+		sum.Notes = append(sum.Notes, fmt.Sprintf("time budget of %s exhausted after %d cases; %d generated cases were not run", budget, sum.Evaluations, sum.Skipped))
+	}
 	return sum
 }
 
